@@ -199,7 +199,7 @@ func reduceUndirected(g graph.Undirected, communities [][]graph.Node) *ReducedUn
 		}
 		communityOf := make(map[int64]int, len(nodes))
 		for i, n := range nodes {
-			r.nodes[i] = community{id: i, nodes: []graph.Node{n}}
+			r.nodes[i] = community{id: i, nodes: []graph.Node{n}, weight: weight(n.ID(), n.ID())}
 			communityOf[n.ID()] = i
 		}
 		for _, u := range nodes {
